@@ -451,6 +451,23 @@ def _pots(chk, ctx) -> None:
     chk.ob('C01.pots', 'State.pots:pending', pend == want_p, fi.loc,
            'eligibility level of a player = everything he paid (incl. the bet in front of him)',
            got=T.show(pend) if pend else None, want=T.show(want_p))
+    # the two per-player lists differ by the bet in front of the player and are adjusted alike afterwards
+    adj = {'contributions': [], 'pending_contributions': []}
+    for n in walk_no_nested(fi.node):
+        if isinstance(n, ast.AugAssign) and isinstance(n.target, ast.Subscript) and isinstance(n.target.value, ast.Name) \
+                and n.target.value.id in adj:
+            adj[n.target.value.id].append((type(n.op).__name__, T.key(T.norm(n.target.slice)), T.key(T.norm(n.value)), _guards_of(fi.node, n)))
+    chk.ob('C01.pots', 'State.pots:parallel_adjustments', sorted(adj['contributions']) == sorted(adj['pending_contributions']) and bool(adj['contributions']), fi.loc,
+           'what is taken out of a player\'s pot contribution (the dead ante when antes are not trimmed) is taken out of his eligibility level too: '
+           'the two lists always differ by exactly the bet in front of him',
+           got={k: [(o, v) for o, _, v, _ in x] for k, x in adj.items()})
+    antes = [n for n in walk_no_nested(fi.node) if isinstance(n, ast.Assign) and isinstance(n.targets[0], ast.Name) and n.targets[0].id == 'ante']
+    ok = len(antes) == 1 and T.norm(antes[0].value) == T.spec('self.get_effective_ante(i)') and \
+        any(isinstance(n, ast.AugAssign) and isinstance(n.op, ast.Add) and ast.unparse(n.target) == 'amount' and T.norm(n.value) == ('name', 'ante')
+            for n in walk_no_nested(fi.node))
+    under = antes and T.spec('not self.ante_trimming_status', boolean=True) in [T.cond(t) for t in _tests_of(fi.node, antes[0])]
+    chk.ob('C01.pots', 'State.pots:dead_antes', ok and bool(under), fi.loc,
+           'untrimmed antes are dead money: each effective ante goes into the first pot and is removed from the player\'s own contribution')
     # rake: both results reach Pot(...)
     rake_calls = [n for n in walk_no_nested(fi.node) if isinstance(n, ast.Call) and self_attr(n.func) == 'rake']
     pot_calls = [n for n in walk_no_nested(fi.node) if isinstance(n, ast.Call) and isinstance(n.func, ast.Name) and n.func.id == 'Pot']
@@ -506,7 +523,7 @@ def _pots(chk, ctx) -> None:
                 guards |= set(p.conds())
     need = {T.spec('self.raked_amount < 0', boolean=True), T.spec('self.unraked_amount < 0', boolean=True)}
     chk.ob('C01.pots', 'Pot.__post_init__', need <= guards, pi.loc if pi else pot.loc, 'a pot with a negative part is rejected')
-    chk.floor('C01.pots', 8)
+    chk.floor('C01.pots', 10)
     # pots are frozen once pushing starts and only push_chips draws from them
     w_pots = sorted(n for n, s in ctx.eff.write_sites.items() if any(r == '_pots' for r, _ in s))
     chk.ob('C01.owner', 'State._pots:writers', w_pots == ['_begin_chips_pushing', 'push_chips'], ctx.state.loc,
@@ -514,6 +531,15 @@ def _pots(chk, ctx) -> None:
     w_sub = sorted(n for n, s in ctx.eff.write_sites.items() if any(r == '_sub_pots' for r, _ in s))
     chk.ob('C01.owner', 'State._sub_pots:writers', w_sub == ['_begin_chips_pushing', 'push_chips'], ctx.state.loc,
            'the queue of sub-pots is filled when pushing begins and drained by push_chips', got=w_sub)
+
+
+def _tests_of(fn, node):
+    from .c02 import _enclosing_tests
+    return _enclosing_tests(fn, node)
+
+
+def _guards_of(fn, node):
+    return tuple(sorted(T.key(T.cond(t)) for t in _tests_of(fn, node)))
 
 
 # --------------------------------------------------------------------- bounds
